@@ -39,7 +39,14 @@ def check(rep):
     lines, pend = [], []
     ratio_hist = {}
     for k in range(n_sys):
-        if k % 5 == 4:
+        if k % 10 == 7:
+            # tied fractions: the same declared share for several components
+            comps = rnd.choice(EQUAL)
+            n = len(comps)
+            text = "".join(c + f".|{100.0 / n}%|" for c in comps) if n in (2, 4) else "".join(c + f".|{p}%|" for c, p in zip(comps, [40.0, 30.0, 30.0, 0.0][:n] if n == 3 else [50.0] + [50.0 / (n - 1)] * (n - 1)))
+            pct = None
+            smw = 2000.0
+        elif k % 5 == 4:
             comps = rnd.choice(EQUAL)
             n = len(comps)
             cuts = sorted(rnd.sample(range(1, 16), n - 1))
@@ -55,12 +62,21 @@ def check(rep):
         except Exception as e:  # noqa
             rep.fail("oracle", f"system could not be constructed: {type(e).__name__}", ident, expected="a system", observed=fw.exc_class(e))
             continue
-        if r.error is not None and "endless loop" in str(r.error):
+        if r.error is not None and fw.scipy_draw_failure(r.error):
+            continue
+        if r.error is not None and "harness: too many molecules" not in str(r.error):
+            rep.fail("oracle", f"iteration of the system failed with {type(r.error).__name__}: {str(r.error)[:100]}", ident, expected="molecules", observed=fw.exc_class(r.error))
             continue
         picks = r.component_picks()
         if not picks:
             continue
         evaluations += 1
+        # the component that is generated is the one at the drawn POSITION (the law handed to rng.choice is indexed by component)
+        wrong = [(j, ci, k) for j, (ci, cands, p_, k) in enumerate(picks) if ci != k]
+        if wrong:
+            j, ci, k = wrong[0]
+            rep.fail("oracle", f"pick {j}: position {k} of the component law was drawn but component {ci} was generated ({len(wrong)} of {len(picks)} picks)", ident,
+                     expected=f"component {k}", observed=f"component {ci}")
         rel = [float(m.mixture.relative_mass) for m in r.system._molecules]
         p_impl = picks[0][2]
         if any(pp[2] != p_impl for pp in picks):
